@@ -160,12 +160,12 @@ def st_op(draw, key, rich=True):
         if k == "supply":
             return [key, k, tok("funded"), f, draw(st.sampled_from([True, True, True, False]))]
         if k == "withdraw":
-            return [key, k, tok("supplied"), draw(st.one_of(st.none(), fr_any))]
+            return [key, k, tok("supplied"), draw(st.one_of(st.none(), fr_any, fr_any, st.sampled_from(["q18up", "q18down"])))]
         if k == "borrow":
             return [key, k, draw(st.sampled_from(["WETH", "USDC", "DAI"])), draw(st.one_of(st.none(), st.sampled_from(["0.1", "0.5", "0.9", "0.999", "1", "1.02", "2"])))]
         if k == "repay":
             wc = draw(st.sampled_from([False, False, True]))
-            return [key, k, tok("debt"), draw(st.one_of(st.none(), fr_any)), wc, tok("supplied") if wc and draw(st.booleans()) else None]
+            return [key, k, tok("debt"), draw(st.one_of(st.none(), fr_any, fr_any, st.sampled_from(["q18up", "q18up", "q18down"]))), wc, tok("supplied") if wc and draw(st.booleans()) else None]
         return [key, k, tok("supplied"), draw(st.booleans())]
     if key == "sq":
         k = draw(st.sampled_from(["open", "open", "open", "mint", "deposit", "burn_withdraw", "burn_withdraw", "lp_deposit", "lp_withdraw", "buy_sq", "sell_sq"]))
